@@ -73,6 +73,12 @@ def make_specs():
         if sp.qualname in ("BaseObserver.unschedule", "BaseObserver.unschedule_all", "BaseObserver._clear_emitters", "BaseObserver.remove_handler_for_watch"):
             sp.prop = PROP
             out.append(sp)
+    # stop() of the observer = EventDispatcher.stop -> BaseThread.stop -> on_thread_stop: every stop() call performs the
+    # removal itself before it returns (a second stop() must not return while the first is still waiting for the lock)
+    from specs import c06
+    for sp in (c06.ThreadStop(), c06.DispatcherStop()):
+        sp.prop = PROP
+        out.append(sp)
     return out
 
 
